@@ -1,9 +1,15 @@
 import Pyc.Driver.Value
+import Pyc.Driver.Canonical
+import Pyc.Driver.Addr
+import Pyc.Driver.Backends
 open Lean Pyc.Driver
 
 /-- dispatch on the prefix of `op` -/
 def dispatch (op : String) (j : Json) : R Json :=
   if op.startsWith "value." || op.startsWith "ma." || op.startsWith "asset." then handleValue op j
+  else if op.startsWith "addr." || op.startsWith "ptr." || op.startsWith "bech32." then handleAddr op j
+  else if op.startsWith "enc." then handleEnc op j
+  else if op.startsWith "backend." then handleBackend op j
   else throw s!"unknown op {op}"
 
 def handleLine (line : String) : String :=
